@@ -24,8 +24,12 @@ class C05(TreeCheck):
                    "'completion' = return of shutdown(wait=True)/with, or the end of the manager thread for wait=False/del/interpreter exit"]
 
     def bases(self, tier, rng):
-        n = 16 if tier == "quick" else 140
-        return [dict(zip(("program", "meta"), programs.g_drain(rng)), config={"keep_procs": True}) for _ in range(n)]
+        n = 20 if tier == "quick" else 160
+        out = []
+        for _ in range(n):
+            prog, meta = programs.g_drain(rng)
+            out.append({"program": prog, "meta": meta, "config": {"keep_procs": True, "env": meta.get("env", {})}})
+        return out
 
     def derive(self, base, F, rng, tier):
         quick = tier == "quick"
@@ -41,7 +45,7 @@ class C05(TreeCheck):
         if not F.futs:
             return None
         m = case["meta"]
-        return (m.get("how"), m.get("position"), m.get("kind"), m.get("kw", {}).get("timeout"), m.get("mode"), m.get("fn"))
+        return (m.get("how"), m.get("position"), m.get("family"), m.get("kind"), m.get("kw", {}).get("timeout"), m.get("mode"), m.get("fn"))
 
 
 def main(tier):
